@@ -462,6 +462,7 @@ class Project(MessageHandler):
 
     def scheduleScenario(self, scIdx: int) -> bool:
         all_tasks: list[Any] = list(self.tasks)
+        inverted: list[Any] = []  # dated tasks whose end lies before their start
 
         # First, handle milestones - they just need end=start (or start=end)
         # A milestone is either:
@@ -495,7 +496,12 @@ class Project(MessageHandler):
                     task[("start", scIdx)] = end
                     task[("scheduled", scIdx)] = True
                 elif start and end:
-                    task[("scheduled", scIdx)] = True
+                    if start <= end:
+                        task[("scheduled", scIdx)] = True
+                    else:
+                        # Pinned to end before it starts: there is no schedule for it
+                        self.warning("task_end_before_start", f"Task {task.fullId} ends before it starts")
+                        inverted.append(task)
                 # else: milestone with no dates - let it be scheduled by the main loop
 
         # Propagate ALAP mode through dependency chains
@@ -504,7 +510,7 @@ class Project(MessageHandler):
         self._propagateALAPMode(scIdx)
 
         # Only care about leaf tasks that aren't scheduled already
-        tasks: list[Any] = [t for t in all_tasks if t.leaf() and not t.get("scheduled", scIdx)]
+        tasks: list[Any] = [t for t in all_tasks if t.leaf() and not t.get("scheduled", scIdx) and t not in inverted]
 
         # Sorting
         # Primary: priority (desc), Secondary: pathcriticalness (desc), Tertiary: seqno (asc)
@@ -551,6 +557,7 @@ class Project(MessageHandler):
                 # likely deadlock or all failed
                 break
 
+        failedTasks.extend(inverted)
         if failedTasks:
             self.warning("unscheduled_tasks", f"{len(failedTasks)} tasks could not be scheduled")
             return False
